@@ -156,10 +156,15 @@ func H_C08_find_relative(s any) {
 	a.ensureKid(st, "b").leaves["y"] = val.Int32(5)
 	a.ensureKid(st, "c").leaves["z"] = val.String("zz")
 	st.root.leaves["top"] = val.Int32(9)
+	dots := st.root.ensureList(st, "l").addRow(st, val.String("x.."))
+	dots.leaves["k"] = val.String("x..")
+	de := dots.ensureList(st, "in").addRow(st, val.String("p"), val.UInt8(3))
+	de.leaves["p"] = val.String("p")
+	de.leaves["q"] = val.UInt8(3)
 	b := NewBrowser(m, st.node())
 	bsel, err := b.Root().Find("a/b")
 	vpAssert(err == nil && bsel != nil, "start selection")
-	up := vpChoose(3)
+	up := vpChoose(5)
 	switch up {
 	case 0:
 		csel, err := bsel.Find("../c")
@@ -170,6 +175,45 @@ func H_C08_find_relative(s any) {
 	case 2:
 		_, err := bsel.Find("../../../a")
 		vpAssert(err != nil && errors.Is(err, fc.NotFoundError), "more ../ than ancestors is a not-found error")
+	case 3: // "../" also occurs later in the path (a key ending in ".."): only the leading steps go up
+		esel, err := bsel.Find("../../l=x../in=p,3")
+		vpAssert(err == nil && esel != nil && esel.Meta() == meta.Find(m, "l/in") && len(esel.Key()) == 2, "../../l=x../in=p,3 from a/b reaches the nested entry")
+	case 4:
+		csel, err := bsel.Find("../c/")
+		vpAssert(err == nil && csel != nil && csel.Meta() == meta.Find(m, "a/c"), "../c/ with a trailing slash")
 	}
+	vpCover("reached")
+}
+
+// navigation never applies read filters to the steps it walks through
+//vp:setup S_c08
+func H_C08_find_ignores_filters(s any) {
+	m := s.(*meta.Module)
+	st := newMemStore()
+	row := st.root.ensureList(st, "l").addRow(st, val.String("r"))
+	row.leaves["k"] = val.String("r")
+	row.leaves["v"] = val.Int32(vpInt32())
+	e := row.ensureList(st, "in").addRow(st, val.String("p"), val.UInt8(3))
+	e.leaves["p"] = val.String("p")
+	e.leaves["q"] = val.UInt8(3)
+	e.leaves["w"] = val.String("hit")
+	a := st.root.ensureKid(st, "a")
+	a.ensureKid(st, "b").leaves["y"] = val.Int32(1)
+	b := NewBrowser(m, st.node())
+	queries := []string{"where=v%3D12345", "where=k%3D'nomatch'", "depth=1", "fields=top", "fc.xfields=l", "content=nonconfig", "fc.range=l!5-6", "fc.max-node-count=1"}
+	q := queries[vpChoose(len(queries))]
+	sel, err := b.Root().Find("l=r/in=p,3?" + q)
+	vpAssert(err == nil && sel != nil, "Find reaches the addressed entry whatever read filter is attached: "+q)
+	if sel != nil {
+		vpAssert(len(sel.Key()) == 2 && sel.Meta() == meta.Find(m, "l/in"), "same node")
+	}
+	sel2, err2 := b.Root().Find("a/b?" + q)
+	vpAssert(err2 == nil && sel2 != nil && sel2.Meta() == meta.Find(m, "a/b"), "Find reaches the addressed container whatever read filter is attached: "+q)
+	// a start selection that already carries filters
+	start, err3 := b.Root().Constrain(q)
+	vpAssert(err3 == nil, "constrain")
+	sel3, err4 := start.Find("l=r/in=p,3")
+	vpAssert(err4 == nil && sel3 != nil, "Find from a constrained start selection: "+q)
+	vpAssert(st.writes() == 0, "no writes")
 	vpCover("reached")
 }
